@@ -142,6 +142,11 @@ def rule_cases(cell):
         ("cosh", lambda: grad(ufl.cosh(f))), ("sinh", lambda: grad(ufl.sinh(f))), ("tanh", lambda: grad(ufl.tanh(f))),
         ("acos", lambda: grad(ufl.acos(f))), ("asin", lambda: grad(ufl.asin(f))), ("atan", lambda: grad(ufl.atan(f / h))),
         ("atan2", lambda: grad(ufl.atan2(f, h))), ("erf", lambda: grad(ufl.erf(f))),
+        ("sqrt_2nd", lambda: div(grad(ufl.sqrt(f)))), ("ln_2nd", lambda: grad(grad(ufl.ln(f * h)))),
+        ("atan_2nd", lambda: div(grad(ufl.atan(f)))), ("asin_2nd", lambda: grad(ufl.asin(f)).dx(0)),
+        ("acos_2nd", lambda: grad(ufl.acos(f)).dx(g - 1)), ("tan_2nd", lambda: div(grad(ufl.tan(f)))),
+        ("tanh_2nd", lambda: grad(ufl.tanh(f)).dx(0)), ("erf_2nd", lambda: grad(ufl.erf(f)).dx(0)),
+        ("power_half_2nd", lambda: div(grad(f**0.5))), ("power_general_2nd", lambda: grad(f**h).dx(0)),
         ("abs", lambda: grad(abs(f))), ("abs_product", lambda: grad(abs(f * h))),
         ("conj", lambda: grad(ufl.conj(f) * h)), ("real", lambda: grad(ufl.real(f * h))), ("imag", lambda: grad(ufl.imag(f))),
         ("conditional", lambda: grad(ufl.conditional(ufl.lt(f, h), f * h, w))),
@@ -174,7 +179,7 @@ def rule_cases(cell):
         ("facet_normal", lambda: grad(n[0] * f)), ("circumradius", lambda: grad(G.h * f)), ("cell_volume", lambda: grad(f / G.vol)),
         ("dot", lambda: grad(ufl.dot(v, u))), ("inner_T", lambda: grad(ufl.inner(T, T))), ("outer", lambda: grad(ufl.outer(v, u))),
         ("matvec", lambda: div(ufl.dot(T, v))), ("transpose", lambda: div(ufl.transpose(T) * f)),
-        ("sym", lambda: div(ufl.sym(grad(v)))), ("skew", lambda: ndiv(ufl.skew(grad(v)))), ("dev", lambda: div(ufl.dev(grad(v)))),
+        ("sym", lambda: div(ufl.sym(grad(v)))), ("skew", lambda: ndiv(ufl.skew(grad(v)))), ("dev", lambda: div(ufl.dev(grad(v))) if g > 1 else div(ufl.sym(grad(v)))),
         ("tr", lambda: grad(ufl.tr(grad(v)))), ("zero_shortcut", lambda: grad(f * 0 + h)),
         ("in_condition", lambda: ufl.conditional(ufl.lt(f.dx(0), h), grad(f * h)[0], div(v))),
         ("scaled_context", lambda: w * grad(f * h)[0] + div(v * w)),
@@ -191,6 +196,43 @@ def rule_cases(cell):
             out.append((f"{nm}_{cell[:3]}", build(), G, None))
         except Exception as ex:       # building a valid expression raised: reported by the caller
             out.append((f"{nm}_{cell[:3]}", None, G, f"{type(ex).__name__}: {ex}"))
+    return out
+
+
+# ---------------------------------------------------------------------------------------------
+# (b') constructor shortcuts: Grad.__new__ / Div.__new__ ... fold "cellwise constant" operands to Zero when
+# the expression is BUILT, so the input side of these cases is given as a Gallina term over the serialised
+# operand (which contains no derivative) instead of being serialised from the constructed object
+
+def ctor_cases(cell, rng):
+    g = C03_gen.GDIM[cell]
+    G = C03_gen.Gen(random.Random(0), cell)
+    f = G.f[0]
+    x, c, detJ = G.x, G.c, G.detJ
+    ops = [("x", x), ("x0_sq", x[0] * x[g - 1]), ("c_x0", c * x[0]), ("sin_x0", ufl.sin(x[0])), ("f", f),
+           ("c_detJ", c * detJ), ("lit_c", 2.0 * c), ("x_scaled", detJ * x), ("cv", G.cv), ("x0_f", x[0] * f)]
+    out = []
+    for nm, op in ops:
+        for dn, build, spec in [("grad", ufl.grad, "Grad {op} %d" % g), ("nabla_grad", ufl.nabla_grad, "NablaGrad {op} %d" % g)] + (
+                [("div", ufl.div, "Div {op} %d" % g)] if op.ufl_shape == (g,) else []):
+            name = f"ctor_{dn}_{nm}_{cell[:3]}"
+            try:
+                res = pipeline(build(op))
+            except Exception as ex:
+                out.append((name, None, f"{dn}({op}) raised {type(ex).__name__}: {ex}"))
+                continue
+            ctx = ufl2coq.Ctx()
+            kind, tid, _, _ = ctx.term(G.q0)
+            comps = list(itertools.product(*[range(d) for d in res.ufl_shape]))
+            if len(comps) > 6:
+                comps = rng.sample(comps, 6)
+            cs = coqgen.Case(name, out=res, spec="DEN s rho (" + spec.format(op=name + "_op") + ") {c}", named={"op": op},
+                             hyps=[f"forall s c j, Dx j (env s {kind} {tid} c) = z0"], ctx=ctx, comps=comps,
+                             tactic="c03_close", note={"family": "constructor", "operator": dn, "operand": str(op),
+                                                       "cell": cell})
+            cs.op = op
+            cs.build = dn
+            out.append((name, cs, None))
     return out
 
 
@@ -364,6 +406,31 @@ def normal_form_file(run, cases, name="C03_nf"):
     return bad
 
 
+def ctor_mismatch(case, trials, seed):
+    """search oracle for the constructor cases: the derivative of the operand, computed on exact jets"""
+    import pyden
+    rng = random.Random(seed)
+    for t in range(trials):
+        env = pyden.Env(nv=3, order=4, seed=rng.randrange(10**9))
+        for c in case.components():
+            try:
+                a = pyden.evaluate(case.out, env, {}, c)
+                if case.build == "grad":
+                    b = pyden.evaluate(case.op, env, {}, c[:-1]).diff(c[-1])
+                elif case.build == "nabla_grad":
+                    b = pyden.evaluate(case.op, env, {}, c[1:]).diff(c[0])
+                else:
+                    b = env.zero()
+                    for j in range(case.op.ufl_shape[-1]):
+                        b = b + pyden.evaluate(case.op, env, {}, tuple(c) + (j,)).diff(j)
+            except Exception:
+                return None
+            if not a.close_to(b):
+                return {"component": list(c), "implementation_value": str(a.value()), "expected_value": str(b.value()),
+                        "operand": str(case.op), "operator": case.build}
+    return None
+
+
 def find_bad_derivative(out):
     """first derivative node of `out` that is not applied to Grad^k(terminal) (python mirror of
     grad_normal, used only to describe a violation)"""
@@ -407,7 +474,7 @@ def main(run):
 
     for cell in cells:
         for nm, e, gen, err in rule_cases(cell):
-            add_rule(nm, e, gen, err, cell, 6 if quick else 9)
+            add_rule(nm, e, gen, err, cell, 6)
     if quick:
         # on the other cells: every rule is built (construction errors are reported), the geometry / constant
         # rules (cell dependent) and every 10th other rule get obligations
@@ -416,6 +483,13 @@ def main(run):
             for k, (nm, e, gen, err) in enumerate(rc):
                 if err is not None or k % 10 == 0 or nm.rsplit("_", 1)[0] in GEOMETRY_RULES:
                     add_rule(nm, e, gen, err, cell, 4)
+    for cell in ("interval", "triangle", "tetrahedron"):
+        for name, cs, err in ctor_cases(cell, rng0):
+            if err is not None:
+                run.violation({"broken": "a spatial derivative of a valid operand raised", "case": name, "detail": err,
+                               "reproduce": "ctor_cases(%r) in /verif/py/props/C03.py" % cell}, True)
+            else:
+                cases.append(cs)
     # known findings: replay the witnesses on the real code
     open_known = []
     for kf in vlib.load_known_findings("C03"):
@@ -435,7 +509,7 @@ def main(run):
         # the witness no longer fails (the defect was repaired): it becomes an ordinary obligation
         add_rule(f"known_{kid.replace('-', '_')}", e, gen, None, "tetrahedron", 6)
     run.extra["open_known"] = open_known
-    rnd = random_cases(run, 36 if quick else 220)
+    rnd = random_cases(run, 36 if quick else 180)
     cases += rnd
     for c in cases:
         run.count_case((c.name, str(c.inp)))
@@ -447,13 +521,13 @@ def main(run):
             hist[o] = hist.get(o, 0) + 1
     run.extra["random_operator_histogram"] = hist
 
-    failing = C03_coq.emit_and_check(run, "C03", cases, timeout=1200, extra_header=C03_coq.extra_header(True),
+    failing = C03_coq.emit_and_check(run, "C03", cases, timeout=1200 if quick else 2700, extra_header=C03_coq.extra_header(True),
                                     shards=16)
     rcases = [ref_case(*t) for t in ref_cases(run.tier)]
     for c in rcases:
         run.count_case((c.name, str(c.inp)))
     run.sample({"case": rcases[0].name, "input": str(rcases[0].inp)[:300], "output": str(rcases[0].out)[:300]})
-    failing_r = C03_coq.emit_and_check(run, "C03ref", rcases, timeout=1200,
+    failing_r = C03_coq.emit_and_check(run, "C03ref", rcases, timeout=1200 if quick else 2700,
                                       extra_header=C03_coq.extra_header_ref(), shards=4 if quick else 8)
     nf_bad = normal_form_file(run, cases + rcases)
     for hf in HAND_FILES:
@@ -472,10 +546,13 @@ def main(run):
             continue
         seen.add(case.name)
         w = None
-        if case.tactic == "c03_close":
+        if case.inp is None:
+            w = ctor_mismatch(case, 10 if quick else 60, run.seed)
+        elif case.tactic == "c03_close":
             w = pyden.find_mismatch(case.out, case.inp, trials=30 if quick else 200, seed=run.seed, nv=3, order=4)
         rep = {"broken_obligation": lemma, "case": case.name, "note": case.note, "coq_message": msg,
-               "input_expr": str(case.inp), "input_repr": repr(case.inp)[:4000],
+               "input_expr": str(case.inp) if case.inp is not None else f"{case.build}({case.op})",
+               "input_repr": repr(case.inp)[:4000] if case.inp is not None else repr(case.op)[:4000],
                "implementation_output": str(case.out)[:3000],
                "expected": "den(apply_derivatives(apply_algebra_lowering(e))) = den(e) with Grad = exact derivative",
                "reproduce": "PYTHONPATH=$UFL_REPO:/verif/py python -c 'from ufl.algorithms.apply_derivatives "
